@@ -102,6 +102,8 @@ pub fn gen(rng: &mut Rng, focus: EFocus) -> E2eScn {
     } else if focus == EFocus::Trace && rng.chance(300) {
         // a log-only (formatting) subscriber: spans enabled but not backed by OpenTelemetry
         1
+    } else if focus == EFocus::Trace && rng.chance(200) {
+        2
     } else {
         0
     };
